@@ -739,11 +739,13 @@ def _extract_parameters(
         parameters[element_name] = {}
         units: Dict[str, str] = element.get_units()
 
-        # Parameters that were not fixed
+        # Parameters that were not fixed. Only the identifiers generated for
+        # this element are considered since the fit may also contain
+        # user-defined constraint variables with similar names.
         variable_name: str
         for variable_name in filter(
-            lambda _: _.endswith(f"_{internal_id}"),
-            fit.var_names,
+            lambda _: _ in fit.var_names,
+            (f"{name}_{internal_id}" for name in element.get_values().keys()),
         ):
             par = fit.params[variable_name]
             stderr: float = par.stderr if hasattr(par, "stderr") else nan
